@@ -336,5 +336,9 @@ pub fn generate(tier: &str, seed: u64) -> Vec<String> {
     }
     // (e) the shard-index cache under real parallelism (see `shardext_stress`)
     out.push(format!("c16 op shardext_stress n={} rows=32 cols=2048", if thorough { 400 } else { 60 }));
+    // (g) client threads on chunks whose keys share a directory of a filesystem store (free-running; see stress.rs)
+    out.push(format!("c16 fsrace rounds={}", if thorough { 3000 } else { 400 }));
+    // (f) the concurrency split itself (`concurrency_chunks_and_codec`): stateless `c16 conc` lines, see c16c.rs
+    out.extend(crate::c16c::generate(tier, seed));
     out
 }
